@@ -27,6 +27,9 @@ def run(rec, hub, tier, seed, shard, nshards, budget):
         i = k * nshards + shard
         rec.set_case(driver="c17.case", seed=seed, tier=tier, shard=shard, nshards=nshards, idx=i)
         dsm.c17_case(rec, hub, case_nprng(seed, "c17.case", 0, i), tier, i)
+        if k % 6 == 1:
+            rec.set_case(driver="c17.shared", seed=seed, tier=tier, shard=shard, nshards=nshards, idx=i)
+            dsm.c17_shared_model_case(rec, hub, case_nprng(seed, "c17.shared", 0, i), tier)
         if k % 4 == 0:
             rec.set_case(driver="c17.system", seed=seed, tier=tier, shard=shard, nshards=nshards, idx=i)
             dsm.c17_system_case(rec, hub, case_nprng(seed, "c17.system", 0, i), tier, i)
@@ -38,6 +41,9 @@ def replay(rec, hub, case):
     rec.set_case(**case)
     if case["driver"] == "c17.system":
         dsm.c17_system_case(rec, hub, case_nprng(case["seed"], "c17.system", 0, case["idx"]), case.get("tier", "quick"), case["idx"])
+        return
+    if case["driver"] == "c17.shared":
+        dsm.c17_shared_model_case(rec, hub, case_nprng(case["seed"], "c17.shared", 0, case["idx"]), case.get("tier", "quick"))
         return
     if case["driver"] == "c17.example":
         dsm.c17_example_case(rec, hub, case_nprng(case["seed"], "c17.example", 0, case["idx"]))
